@@ -1,6 +1,8 @@
 import LocustModel.Store.Machine
 import LocustModel.Store.Spec
 import LocustModel.Lemmas.StoreWal
+import LocustModel.Lemmas.StoreDurableRun
+import LocustModel.Lemmas.StoreExample
 /-
   C18 — a finished flush leaves no garbage and unblocks ingestion.  Property theorems only.
   Histories are arbitrary lists of `Op` (any length, any planner choices, any sizes, any replay orders).
@@ -43,10 +45,48 @@ theorem C18_segments_bounded (P : Params ν κ) (ops : List (Op ν κ)) (w : Wor
   have : (walIds w.disk).length = w.disk.wal.length := by simp [walIds]
   rw [← this, h]; simp
 
+/-- The directory after a completed flush, after ANY history and with ANY planned compactions: no log segment, the
+    catalogue file exists, and for every table the partition files on disk are EXACTLY the files the catalogue
+    file refers to (same ids, same sub-partition keys, each once; no file of a merged-away partition, no orphan).
+    The model has no other kind of file (temporary files are below the granularity of a completed call). -/
+theorem C18_clean (P : Params ν κ) (hP : ParamsOk P) (ops : List (Op ν κ)) (hwf : HistWF ops)
+    (w w' : World ν κ) (fi : FlushIn ν) (hfi : FlushWF fi)
+    (hrun : run P ops (initWorld P) = .ok w) (hflush : flush P w fi = .ok w') :
+    w'.disk.wal = [] ∧ w'.mem.walSize = 0 ∧
+    ∃ mf, w'.disk.metaFile = some mf ∧ ∀ t, fileNames (w'.disk.parts t) = expectedFiles (mf.parts t) := by
+  obtain ⟨pre, hd⟩ := durable_run P hP ops hwf w hrun
+  obtain ⟨hd', _, hwal, hmeta⟩ := hd.flush hP.reencode hfi hflush
+  have h0 := (walInv_flush P w w' fi hd.wal hflush).2.2.1
+  exact ⟨hwal, h0, _, hmeta, fun t => hd'.files_exact t⟩
+
+/-- File counts stay bounded by the catalogue over any number of ingest / flush / restart cycles: at EVERY point of
+    EVERY history the partition files of a table are exactly the files of its catalogue entries (so their number is
+    the number of sub-partitions the catalogue lists), the catalogue in memory is the one in the catalogue file, and
+    the number of log segments is the number of ingestion calls since the last completed flush. -/
+theorem C18_bounded (P : Params ν κ) (hP : ParamsOk P) (ops : List (Op ν κ)) (hwf : HistWF ops) (w : World ν κ)
+    (hrun : run P ops (initWorld P) = .ok w) :
+    (∀ t, fileNames (w.disk.parts t) = expectedFiles (w.mem.cat.parts t)) ∧
+    (∀ t, (w.disk.parts t).length = ((w.mem.cat.parts t).map (fun m => m.keys.length)).sum) ∧
+    w.mem.cat.parts = (w.disk.metaFile.getD ⟨0, fun _ => []⟩).parts ∧
+    w.disk.wal.length = w.mem.cat.nextWal - w.mem.cat.earliest := by
+  obtain ⟨pre, hd⟩ := durable_run P hP ops hwf w hrun
+  refine ⟨fun t => hd.files_exact t, fun t => ?_, hd.metaEq, C18_segments_bounded P ops w hrun⟩
+  have := congrArg List.length (hd.files_exact t)
+  rw [expectedFiles_length] at this
+  simpa [fileNames] using this
+
 -- non-vacuity: a concrete history (ingest, flush) runs without fault and ends with an empty log
 example : ∃ w, run (ν := Nat) (κ := Nat) ⟨id, 0, [.columnName]⟩
       [.ingest [(.user 1, ⟨1, [(.user 7, [.val 5])]⟩)] 10, .flush ⟨[], fun _ => ["all"], fun _ => ["all"]⟩]
       (initWorld ⟨id, 0, [.columnName]⟩) = .ok w ∧ w.disk.wal = [] ∧ w.mem.walSize = 0 :=
   ⟨_, rfl, by decide, by decide⟩
+
+-- non-vacuity of C18_clean / C18_bounded: history with a compaction (partitions 0 and 1 of table 1 merged into 2,
+-- two sub-partition files), a restart with reversed replay, a final flush: the directory holds exactly the files of
+-- the catalogue — the files of the merged-away partitions 0 and 1 are gone
+example : ∃ w, ParamsOk Ex.P0 ∧ HistWF Ex.opsB ∧ run Ex.P0 Ex.opsB (initWorld Ex.P0) = .ok w ∧
+    fileNames (w.disk.parts (.user 1)) = [(2, "a"), (2, "b"), (3, "all")] ∧ w.disk.wal = [] ∧ w.mem.walSize = 0 ∧
+    (w.disk.metaFile.map (fun mf => mf.parts (.user 1))) = some [⟨2, 0, 3, ["a", "b"]⟩, ⟨3, 3, 1, ["all"]⟩] :=
+  ⟨_, Ex.P0_ok, Ex.opsB_wf, rfl, by decide, rfl, rfl, by decide⟩
 
 end LM.C18
